@@ -11,6 +11,7 @@ PATH = {'Debug': 'std::fmt::Debug', 'Clone': 'Clone', 'Copy': 'Copy', 'PartialEq
 # "which": 'deleg' = fields that are neither ignored nor method-handled, 'all' = every field
 CONFIGS = {
     'Debug': (['Debug'], 'Debug', [], [('Debug', 'Debug', 'deleg')]),
+    'Debug/flip': (['Debug(name = true)'], 'Debug', [], [('Debug', 'Debug', 'deleg')]),
     'Clone': (['Clone'], 'Clone', [], [('Clone', 'Clone', 'deleg')]),
     'Copy+Clone': (['Copy', 'Clone'], 'Clone', [], [('Clone', 'Copy', 'copyclone'), ('Copy', 'Copy', 'all')]),
     'Copy': (['Copy'], None, ['Clone'], [('Copy', 'Copy', 'all')]),
@@ -99,7 +100,10 @@ def build(cfg, kind, stat, forms, cond=False):
         # V0 holds the fields positionally, V1 holds them named; Default marks V1; a unit variant where allowed
         dm = '    #[educe(Default)]\n' if cfg == 'Default' else ''
         unit = '' if cfg in ('Into', 'Into2') else '    V2,\n'
-        src += 'pub enum Ty%s {\n    V0(%s),\n%s    V1 { %s },\n%s}\n' % (gdecl, ', '.join(ftypes[k] for k in range(n)) if cfg in ('Default',) else ', '.join(fl(k, False) for k in range(n)),
+        flip0 = '#[educe(Debug(named_field = true))] ' if cfg == 'Debug/flip' else ''
+        flip1 = '    #[educe(Debug(named_field = false, name = false))]\n' if cfg == 'Debug/flip' else ''
+        dm = dm + flip1
+        src += 'pub enum Ty%s {\n    %sV0(%s),\n%s    V1 { %s },\n%s}\n' % (gdecl, flip0, ', '.join(ftypes[k] for k in range(n)) if cfg in ('Default',) else ', '.join(fl(k, False) for k in range(n)),
                                                                          dm, ', '.join(fl(k, True) for k in range(n)), unit)
     else:
         md = lambda t: 'std::mem::ManuallyDrop<%s>' % t
@@ -165,7 +169,7 @@ def build(cfg, kind, stat, forms, cond=False):
 def generate(tier):
     cases = []
     for cfg in CONFIGS:
-        kinds = ['struct', 'tuple', 'enum']
+        kinds = ['struct', 'tuple', 'enum'] if cfg != 'Debug/flip' else ['enum']
         if cfg in ('Copy+Clone', 'Copy', 'Eq', 'Default'):
             kinds.append('union')
         for kind in kinds:
